@@ -1,0 +1,25 @@
+//go:build verif
+
+// Contracts for the frame functions of vm/evm.go (comment-only file, compiled
+// only under the "verif" build tag; it adds no code).
+package vm
+
+//@ func (*vm.EVM).Call
+//@   verify
+//@   safety [C03]
+//@   requires host [C03]: evm != nil && value != nil && evm.tracer != nil && evm.interpreter != nil
+//@ end
+
+// The interpreter loop. Body: identical to go-ethereum v1.12.0 modulo ctx (E2).
+// This contract is the inductive hypothesis of the frame recursion
+// Call/create -> Run -> opCall/opCreate -> Call/create: nested frames go through
+// the verified frame functions, which restore the call-tree cursor, depth and
+// read-only flag; ASSUMED here, listed in the evidence.
+//@ func (*vm.EVMInterpreter).Run
+//@   trusted
+//@   kind mutating
+//@   requires nonnil [C03]: in != nil && contract != nil
+//@   modifies vm.Contract.Gas, vm.Contract.Input, vm.Contract.analysis, vm.EVMInterpreter.returnData, vm.EVM.callGasTemp
+//@   modifies vm.CallTree.count, vm.CallTree.root, map:map[uint64]*vm.Call, vm.Call.Children, vm.Call.Ret, vm.Call.Err, vm.Call.RemainingGas
+//@   ensures gas-monotone [C02 C06]: contract.Gas <= old(contract.Gas)
+//@ end
